@@ -533,8 +533,15 @@ impl ExecutionEngine {
                 let mut input_results =
                     Self::execute_with_ids_and_input(input, database, context, incoming);
                 let output_var = Self::normalize_variable(output_variable);
+                // A bind join may feed solutions that already bind the target. BIND then
+                // joins like any other pattern: such a solution survives only when the
+                // computed value agrees with the one it came with.
+                let fed_targets: Vec<Option<u32>> = input_results
+                    .iter()
+                    .map(|row| row.get(output_var).copied())
+                    .collect();
 
-                if function_name == "CONCAT" {
+                let bound_results = if function_name == "CONCAT" {
                     // Decode all needed values first
                     let dict = database.dictionary.read().unwrap();
                     // An unbound argument is an expression error: BIND then
@@ -676,7 +683,13 @@ impl ExecutionEngine {
                 } else {
                     eprintln!("Function {} not found", function_name);
                     input_results
-                }
+                };
+                bound_results
+                    .into_iter()
+                    .zip(fed_targets)
+                    .filter(|(row, fed)| fed.is_none_or(|fed| row.get(output_var) == Some(&fed)))
+                    .map(|(row, _)| row)
+                    .collect()
             }
             PhysicalOperator::Values { variables, values } => {
                 let stripped_vars: Vec<String> = variables
